@@ -1,8 +1,10 @@
 // C17 — RHP contract constructors conserve funds and yield consensus-valid contracts.
 //
 // TestSeq   one Case = one drawn sequence NewContract -> {append, free, roots, fund, replenish, pay,
-//           renew, refresh full, refresh partial, reprice, mine}; the pure checker replays it against
-//           the library, an independent math/big model and a private consensus chain (env_test.go).
+//
+//	renew, refresh full, refresh partial, reprice, mine}; the pure checker replays it against
+//	the library, an independent math/big model and a private consensus chain (env_test.go).
+//
 // TestUsage HostPrices.RPC*Cost / Usage.Add / Usage.Mul / RenterCost against math/big.
 // TestV1    rhp2/rhp3 formation, PayByContract, renewal: tax equation, valid==missed, ValidateTransaction.
 //
@@ -18,7 +20,6 @@ import (
 	"go.sia.tech/core/consensus"
 	rhp4 "go.sia.tech/core/rhp/v4"
 	"go.sia.tech/core/types"
-	"pgregory.net/rapid"
 	"verif/harness/stats"
 )
 
@@ -65,10 +66,10 @@ type Amt struct {
 // Op is one step of a sequence.
 type Op struct {
 	Kind       string     `json:"kind"`
-	N          uint64     `json:"n,omitempty"`       // sectors / roots length / blocks / deposits
-	Off        uint64     `json:"off,omitempty"`     // roots: offset (reduced modulo what fits)
-	Amount     Amt        `json:"amount,omitzero"`   // fund / replenish target
-	Bals       []uint8    `json:"bals,omitempty"`    // replenish: account balances in quarters of the target
+	N          uint64     `json:"n,omitempty"`     // sectors / roots length / blocks / deposits
+	Off        uint64     `json:"off,omitempty"`   // roots: offset (reduced modulo what fits)
+	Amount     Amt        `json:"amount,omitzero"` // fund / replenish target
+	Bals       []uint8    `json:"bals,omitempty"`  // replenish: account balances in quarters of the target
 	Allowance  Amt        `json:"allowance,omitzero"`
 	Collateral Amt        `json:"collateral,omitzero"`
 	ProofMode  string     `json:"proofMode,omitempty"` // "" minimal valid proof height + Proof; "maxdur": longest allowed
@@ -191,6 +192,22 @@ func (r *run) minAllowance(collateral *big.Int) *big.Int {
 
 var errSkip = fmt.Errorf("skip")
 
+// rejectClass turns a Validate error into a short stable label (numbers and units removed).
+func rejectClass(err error) string {
+	units := map[string]bool{"H": true, "pS": true, "nS": true, "uS": true, "mS": true, "SC": true, "KS": true, "MS": true, "GS": true, "TS": true}
+	var out []string
+	for _, tok := range strings.Fields(err.Error()) {
+		if strings.ContainsAny(tok, "0123456789()") || units[tok] {
+			continue
+		}
+		out = append(out, tok)
+		if len(out) == 7 {
+			break
+		}
+	}
+	return strings.Join(out, " ")
+}
+
 // amt resolves a symbolic amount; negative results are clamped to zero.
 func (r *run) amt(a Amt, bases map[string]*big.Int) (*big.Int, error) {
 	base := new(big.Int)
@@ -215,21 +232,25 @@ func minHeight(tip, priceTip uint64) uint64 {
 	return max(tip, priceTip) + minDuration
 }
 
-// proofHeight resolves the proof height of a formation or renewal.
+// proofHeight resolves the proof height of a formation or renewal: the earliest height
+// Validate accepts (or floor, if later) plus op.Proof reduced modulo the room the host's
+// maximum duration leaves, plus op.ProofD; or, in mode "maxdur", the height at which the
+// duration equals the maximum exactly (plus op.ProofD).
 func (r *run) proofHeight(op Op, floor uint64) uint64 {
 	base := minHeight(r.e.cs.Index.Height, r.hp.TipHeight)
 	if floor > base {
 		base = floor
 	}
+	// duration = proofHeight + window - priceTip <= MaxDuration
+	last := int64(r.hp.TipHeight+r.c.MaxDuration) - proofWindow
 	if op.ProofMode == "maxdur" {
-		// duration = proofHeight + window - priceTip == MaxDuration
-		base = r.hp.TipHeight + r.c.MaxDuration - proofWindow
-		if r.hp.TipHeight+r.c.MaxDuration < proofWindow {
-			base = 0
-		}
-		return uint64(max(int64(base)+op.ProofD, 0))
+		return uint64(max(last+op.ProofD, 0))
 	}
-	return uint64(max(int64(base+op.Proof)+op.ProofD, 0))
+	d := op.Proof
+	if last >= int64(base) {
+		d %= uint64(last) - base + 1
+	}
+	return uint64(max(int64(base+d)+op.ProofD, 0))
 }
 
 func failf(key, format string, args ...any) error { return stats.Failf("C17/"+key, format, args...) }
@@ -275,6 +296,7 @@ func (r *run) form() (bool, error) {
 		RenterInputs: []types.SiacoinElement{r.e.wallet[wRenter].Copy()},
 	}
 	if err := req.Validate(r.hostKey(), r.e.cs.Index, fromBig(r.maxColl), r.c.MaxDuration); err != nil {
+		r.label("reject:" + "form" + ":" + rejectClass(err))
 		r.note("form", "validate-reject")
 		return false, nil
 	}
@@ -356,7 +378,9 @@ type revPlan struct {
 	labels   []string
 }
 
-func opRoot(i int, kind string) types.Hash256 { return types.HashBytes([]byte(fmt.Sprintf("c17/%d/%s", i, kind))) }
+func opRoot(i int, kind string) types.Hash256 {
+	return types.HashBytes([]byte(fmt.Sprintf("c17/%d/%s", i, kind)))
+}
 
 // plan builds the request for a revision op, runs its Validate and returns the expected
 // effect. ok=false means the op is outside the preconditions (labelled).
@@ -374,6 +398,7 @@ func (r *run) plan(i int, op Op) (revPlan, bool) {
 		}
 		req := rhp4.RPCAppendSectorsRequest{Prices: r.hp, Sectors: make([]types.Hash256, n), ContractID: id}
 		if err := req.Validate(r.hostKey()); err != nil {
+			r.label("reject:" + op.Kind + ":" + rejectClass(err))
 			r.note(op.Kind, "validate-reject")
 			return p, false
 		}
@@ -415,6 +440,7 @@ func (r *run) plan(i int, op Op) (revPlan, bool) {
 		}
 		req := rhp4.RPCFreeSectorsRequest{ContractID: id, Prices: r.hp, Indices: idx}
 		if err := req.Validate(r.hostKey(), fc); err != nil {
+			r.label("reject:" + op.Kind + ":" + rejectClass(err))
 			r.note(op.Kind, "validate-reject")
 			return p, false
 		}
@@ -441,6 +467,7 @@ func (r *run) plan(i int, op Op) (revPlan, bool) {
 		}
 		req := rhp4.RPCSectorRootsRequest{Prices: r.hp, ContractID: id, Offset: off, Length: length}
 		if err := req.Validate(r.hostKey(), fc); err != nil {
+			r.label("reject:" + op.Kind + ":" + rejectClass(err))
 			r.note(op.Kind, "validate-reject")
 			return p, false
 		}
@@ -469,6 +496,7 @@ func (r *run) plan(i int, op Op) (revPlan, bool) {
 		}
 		req := rhp4.RPCFundAccountsRequest{ContractID: id, Deposits: deps, RenterSignature: types.Signature{1}}
 		if err := req.Validate(); err != nil {
+			r.label("reject:" + op.Kind + ":" + rejectClass(err))
 			r.note(op.Kind, "validate-reject")
 			return p, false
 		}
@@ -496,6 +524,7 @@ func (r *run) plan(i int, op Op) (revPlan, bool) {
 		}
 		req := rhp4.RPCReplenishAccountsRequest{Accounts: accts, Target: fromBig(target), ContractID: id, ChallengeSignature: types.Signature{1}}
 		if err := req.Validate(); err != nil {
+			r.label("reject:" + op.Kind + ":" + rejectClass(err))
 			r.note(op.Kind, "validate-reject")
 			return p, false
 		}
@@ -601,7 +630,9 @@ func (r *run) revise(p revPlan, broadcast bool) error {
 			return failf("rev/error-modified/"+p.kind, "PayWithContract returned an error but modified the contract: %v", err)
 		}
 		if gotU != (rhp4.Usage{}) {
-			return failf("rev/error-usage/"+p.kind, "%s failed (%v) but reported usage %+v", p.kind, err, gotU)
+			// sector roots / fund / replenish return the attempted usage next to the error; callers
+			// must look at the error first, so this is only recorded
+			r.label("rev:error-returns-nonzero-usage")
 		}
 		if got.RenterOutput != before.RenterOutput || got.HostOutput != before.HostOutput || got.MissedHostValue != before.MissedHostValue ||
 			got.TotalCollateral != before.TotalCollateral || got.RevisionNumber != before.RevisionNumber {
@@ -764,6 +795,7 @@ func (r *run) renewal(op Op) error {
 		req := rhp4.RPCRenewContractRequest{Prices: r.hp, Renewal: params, MinerFee: fromBig(fee), Basis: r.e.cs.Index,
 			RenterInputs: []types.SiacoinElement{r.e.wallet[wRenter].Copy()}}
 		if err := req.Validate(r.hostKey(), r.e.cs.Index, old, fromBig(r.maxColl), r.c.MaxDuration); err != nil {
+			r.label("reject:" + op.Kind + ":" + rejectClass(err))
 			r.note(op.Kind, "validate-reject")
 			return nil
 		}
@@ -847,6 +879,7 @@ func (r *run) renewal(op Op) error {
 		req := rhp4.RPCRefreshContractRequest{Prices: r.hp, Refresh: params, MinerFee: fromBig(fee), Basis: r.e.cs.Index,
 			RenterInputs: []types.SiacoinElement{r.e.wallet[wRenter].Copy()}}
 		if err := req.Validate(r.hostKey(), r.e.cs.Index, old, fromBig(r.maxColl), partial); err != nil {
+			r.label("reject:" + op.Kind + ":" + rejectClass(err))
 			r.note(op.Kind, "validate-reject")
 			return nil
 		}
@@ -1024,6 +1057,9 @@ func checkSeq(c Case) error {
 	if r.renewed {
 		rec.Label("seq:renew-or-refresh")
 	}
+	if nt {
+		rec.Label("seq:nontrivial")
+	}
 	rec.Label(fmt.Sprintf("seq:executed-ops:%02d", min(r.executed, 15)))
 	bl := func(s string) int { return (dec(s).BitLen() + 7) / 8 }
 	fp := stats.FP(strings.Join(r.kinds, ","), strings.Join(r.classes, ","),
@@ -1034,235 +1070,6 @@ func checkSeq(c Case) error {
 		rec.Sample(nt, map[string]any{"ops": strings.Join(r.kinds, ","), "result": strings.Join(r.classes, ","), "prices": c.Prices, "form": c.Form})
 	}
 	return nil
-}
-
-// ---- generator ----------------------------------------------------------------------------
-
-// genCur draws a currency of a uniformly drawn bit length in [lo, hi] (0 = the value zero).
-func genCur(t *rapid.T, name string, lo, hi int) string {
-	bl := rapid.IntRange(lo, hi).Draw(t, name+"-bits")
-	if bl == 0 {
-		return "0"
-	}
-	v := new(big.Int).SetUint64(rapid.Uint64().Draw(t, name+"-hi"))
-	v.Lsh(v, 64).Or(v, new(big.Int).SetUint64(rapid.Uint64().Draw(t, name+"-lo")))
-	v.Rsh(v, uint(128-bl))
-	v.SetBit(v, bl-1, 1)
-	return v.String()
-}
-
-func genPrice(t *rapid.T, name string) string {
-	switch rapid.IntRange(0, 9).Draw(t, name+"-class") {
-	case 0, 1:
-		return "0"
-	case 2:
-		return "1"
-	case 3:
-		return new(big.Int).Lsh(big.NewInt(1), 40).String() // the stated cap
-	case 4, 5:
-		return genCur(t, name, 20, 32) // realistic per-byte-per-block prices
-	}
-	return genCur(t, name, 1, 40)
-}
-
-func genPrices(t *rapid.T) PriceSpec {
-	return PriceSpec{
-		Contract:   genCur(t, "contract", 0, 90),
-		Collateral: genPrice(t, "collateral"),
-		Storage:    genPrice(t, "storage"),
-		Ingress:    genPrice(t, "ingress"),
-		Egress:     genPrice(t, "egress"),
-		FreeSector: genCur(t, "freesector", 0, 70),
-		TipDelta:   rapid.SampledFrom([]int64{0, 0, 0, 0, 0, 1, 2, 3, -1, -2}).Draw(t, "tipdelta"),
-	}
-}
-
-func genDelta(t *rapid.T, name string, allowBad bool) int64 {
-	if allowBad {
-		return rapid.SampledFrom([]int64{0, 0, 0, 1, 1, -1}).Draw(t, name)
-	}
-	return rapid.SampledFrom([]int64{0, 0, 1}).Draw(t, name)
-}
-
-func genSectors(t *rapid.T, name string) uint64 {
-	switch rapid.IntRange(0, 19).Draw(t, name+"-class") {
-	case 0, 1, 2, 3, 4, 5:
-		return 1
-	case 6, 7, 8, 9, 10, 11, 12, 13:
-		return rapid.Uint64Range(2, 8).Draw(t, name)
-	case 14, 15, 16, 17:
-		return rapid.Uint64Range(9, 256).Draw(t, name)
-	case 18:
-		return rapid.Uint64Range(257, 4096).Draw(t, name)
-	}
-	if stats.Thorough() {
-		return rapid.SampledFrom([]uint64{maxBatch, maxBatch - 1, 1 << 12, 1 << 15}).Draw(t, name)
-	}
-	return rapid.SampledFrom([]uint64{4097, 1 << 13}).Draw(t, name)
-}
-
-func genCollateral(t *rapid.T, kind string) Amt {
-	modes := []string{"abs", "abs", "abs", "zero", "sect", "sect", "max"}
-	switch kind {
-	case "renew":
-		modes = append(modes, "keep", "keep", "keep")
-	case "refresh_partial":
-		modes = append(modes, "missed", "missed", "missed")
-	}
-	switch m := rapid.SampledFrom(modes).Draw(t, "coll-mode"); m {
-	case "zero":
-		return Amt{}
-	case "abs":
-		return Amt{V: genCur(t, "coll", 1, 80)}
-	case "sect":
-		return Amt{Mode: "sect", K: genSectors(t, "coll-k"), D: rapid.SampledFrom([]int64{0, 0, -1, 1}).Draw(t, "coll-d")}
-	case "max":
-		return Amt{Mode: "max", D: rapid.SampledFrom([]int64{0, 0, 0, -1, 1}).Draw(t, "coll-d")}
-	default:
-		return Amt{Mode: m, D: rapid.SampledFrom([]int64{0, 0, -1, 1}).Draw(t, "coll-d")}
-	}
-}
-
-func genAllowance(t *rapid.T, kind string) Amt {
-	modes := []string{"min", "min", "min+", "min+", "min+", "abs"}
-	switch kind {
-	case "renew", "refresh_full":
-		modes = append(modes, "bal", "bal", "bal")
-	case "refresh_partial":
-		modes = append(modes, "balcp", "balcp", "balcp")
-	}
-	switch m := rapid.SampledFrom(modes).Draw(t, "allow-mode"); m {
-	case "min":
-		return Amt{Mode: "min", D: rapid.SampledFrom([]int64{0, 0, 0, 1, 1, -1}).Draw(t, "allow-d")}
-	case "min+":
-		return Amt{Mode: "min", V: genCur(t, "allow", 1, 100)}
-	case "abs":
-		return Amt{V: genCur(t, "allow", 0, 100)}
-	default:
-		return Amt{Mode: m, D: rapid.SampledFrom([]int64{0, 0, -1, 1}).Draw(t, "allow-d")}
-	}
-}
-
-func genProof(t *rapid.T, op *Op, maxDur uint64) {
-	switch rapid.IntRange(0, 19).Draw(t, "proof-class") {
-	case 0, 1, 2:
-		op.Proof = 0
-	case 3, 4, 5:
-		op.Proof = rapid.Uint64Range(1, 10).Draw(t, "proof")
-	case 6, 7, 8, 9, 10, 11, 12, 13:
-		op.Proof = rapid.Uint64Range(11, 1000).Draw(t, "proof")
-	case 14, 15, 16, 17:
-		op.Proof = rapid.Uint64Range(1001, 1<<20).Draw(t, "proof")
-	default:
-		op.ProofMode = "maxdur"
-		op.ProofD = rapid.SampledFrom([]int64{0, 0, -1, 1}).Draw(t, "proof-d")
-		return
-	}
-	if rapid.IntRange(0, 19).Draw(t, "proof-bad") == 0 {
-		op.ProofD = -1
-	}
-}
-
-func genFee(t *rapid.T) string {
-	if rapid.IntRange(0, 29).Draw(t, "fee-zero") == 0 {
-		return "0"
-	}
-	return genCur(t, "fee", 1, 80)
-}
-
-func genDrain(t *rapid.T) string {
-	return rapid.SampledFrom([]string{"", "", "", "", "", "", "exact", "exact", "minus1", "plus1"}).Draw(t, "drain")
-}
-
-var opKinds = []string{
-	"append", "append", "append", "append", "append", "free", "free", "roots", "roots", "fund", "fund", "replenish", "replenish", "pay",
-	"renew", "renew", "refresh_full", "refresh_full", "refresh_partial", "refresh_partial", "reprice", "mine",
-}
-
-func genOp(t *rapid.T, maxDur uint64) Op {
-	op := Op{Kind: rapid.SampledFrom(opKinds).Draw(t, "kind")}
-	switch op.Kind {
-	case "append":
-		op.N = genSectors(t, "n")
-		op.Drain = genDrain(t)
-	case "free":
-		op.N = rapid.OneOf(rapid.Just(uint64(1<<40)), rapid.Uint64Range(0, 8), rapid.Uint64Range(0, 300)).Draw(t, "n")
-		op.Drain = genDrain(t)
-	case "roots":
-		op.N = rapid.OneOf(rapid.Uint64Range(0, 4), rapid.Uint64Range(1, 5000), rapid.Just(uint64(1<<40))).Draw(t, "n")
-		op.Off = rapid.Uint64().Draw(t, "off")
-		op.Drain = genDrain(t)
-	case "fund":
-		op.N = rapid.Uint64Range(0, 2).Draw(t, "deposits")
-		if rapid.IntRange(0, 2).Draw(t, "bal") == 0 {
-			op.Amount = Amt{Mode: "bal", D: rapid.SampledFrom([]int64{0, 0, -1, 1}).Draw(t, "d")}
-		} else {
-			op.Amount = Amt{V: genCur(t, "amount", 0, 100)}
-		}
-	case "replenish":
-		nb := rapid.IntRange(1, 4).Draw(t, "accounts")
-		for i := 0; i < nb; i++ {
-			op.Bals = append(op.Bals, uint8(rapid.IntRange(0, 5).Draw(t, "bal-quarters")))
-		}
-		if rapid.IntRange(0, 2).Draw(t, "bal") == 0 {
-			op.Bals = []uint8{0}
-			op.Amount = Amt{Mode: "bal", D: rapid.SampledFrom([]int64{0, 0, -1, 1}).Draw(t, "d")}
-		} else {
-			op.Amount = Amt{V: genCur(t, "target", 0, 100)}
-		}
-	case "pay":
-		for _, n := range []string{"rpc", "storage", "egress", "ingress", "fund", "risked"} {
-			op.Usage = append(op.Usage, genCur(t, n, 0, 70))
-		}
-		op.Drain = genDrain(t)
-	case "renew":
-		op.Collateral = genCollateral(t, op.Kind)
-		op.Allowance = genAllowance(t, op.Kind)
-		genProof(t, &op, maxDur)
-		op.Fee = genFee(t)
-		op.N = rapid.Uint64Range(0, 1).Draw(t, "rotate-host-address")
-	case "refresh_full", "refresh_partial":
-		op.Collateral = genCollateral(t, op.Kind)
-		op.Allowance = genAllowance(t, op.Kind)
-		op.Fee = genFee(t)
-		op.N = rapid.Uint64Range(0, 1).Draw(t, "rotate-host-address")
-	case "reprice":
-		p := genPrices(t)
-		op.Prices = &p
-	case "mine":
-		op.N = rapid.Uint64Range(1, 20).Draw(t, "blocks")
-	}
-	if op.Kind != "renew" && !strings.HasPrefix(op.Kind, "refresh") && op.Kind != "reprice" && op.Kind != "mine" {
-		op.Broadcast = rapid.IntRange(0, 9).Draw(t, "broadcast") < 6
-	}
-	return op
-}
-
-func drawSeq(t *rapid.T) Case {
-	c := Case{KeySeed: uint8(rapid.IntRange(0, 255).Draw(t, "keyseed"))}
-	c.Prices = genPrices(t)
-	if c.Prices.TipDelta < 0 {
-		c.Prices.TipDelta = 0
-	}
-	switch rapid.IntRange(0, 5).Draw(t, "maxcoll-class") {
-	case 0:
-		c.MaxCollateral = genCur(t, "maxcoll", 30, 100)
-	default:
-		c.MaxCollateral = new(big.Int).Lsh(big.NewInt(1), 110).String()
-	}
-	switch rapid.IntRange(0, 5).Draw(t, "maxdur-class") {
-	case 0:
-		c.MaxDuration = rapid.Uint64Range(proofWindow+minDuration, 5000).Draw(t, "maxdur")
-	default:
-		c.MaxDuration = 1 << 20
-	}
-	c.Form = Op{Kind: "form", Collateral: genCollateral(t, "form"), Allowance: genAllowance(t, "form"), Fee: genFee(t)}
-	genProof(t, &c.Form, c.MaxDuration)
-	n := rapid.IntRange(3, 14).Draw(t, "nops")
-	for i := 0; i < n; i++ {
-		c.Ops = append(c.Ops, genOp(t, c.MaxDuration))
-	}
-	return c
 }
 
 func TestSeq(t *testing.T) { stats.Prop(t, drawSeq, checkSeq) }
